@@ -32,7 +32,9 @@ MANIFEST = {
                 ref="6/C09", note=NOTE_W, technique="TLA+ model checking with fairness (TLC) + trace validation + bounded-liveness replay"),
     "C11": dict(text="AlphDecode.tla states per field the accepted value set and the decoded record; TLC checks totality, reject-outside, "
                      "injectivity and the attestation layout and exports every class combination, each of which is evaluated on the real "
-                     "ToWormholeMessage / toMessagePublication / parseAttestToken / id helpers and validated line by line by TLC.",
+                     "ToWormholeMessage / toMessagePublication / parseAttestToken / id helpers and validated line by line by TLC; the same events are "
+                     "then decoded by 32 goroutines at once (the node decodes on the poller and on the re-observation goroutine) and every outcome "
+                     "that differs from the first one of the same event becomes a line for TLC.",
                 ref="6/C11", note=NOTE11, technique="TLA+ specification as oracle (TLC enumeration + per-evaluation trace validation)"),
 }
 
